@@ -135,6 +135,10 @@ def make_hooks(rec):
         if simple in ("warn",):
             return K(None)
         ext = interp.ext_name(fname, frame)
+        if isinstance(call.func, ast.Attribute) and call.func.attr in ("all", "any") and not args and ext is None:
+            recv_ = interp.ev(call.func.value, st, frame)
+            if isinstance(recv_, Opq) and recv_.tag == "numpy.isnan":
+                ext, args = "numpy." + call.func.attr, [recv_]
         if ext in ("numpy.all", "numpy.any") and args:
             # scenario: the window holds observations (no missing value decides a branch); with rec.partial_nan the window has
             # some, but not only, missing values and observed end points
